@@ -20,9 +20,9 @@ def tasks(tier, seed, selftest=False):
     q = tier == "quick"
     prefixes = cc.PREFIXES if PROP == "C06" else [()]
 
-    def add(fam, prefix, box, strat=None, cube_k=0, nbits=0):
-        base = {"prop": PROP, "family": fam, "label": f"{fam}/{'+'.join(prefix) or 'fresh'}/{'all' if strat else 'internal' if strat is not None else 'both'}",
-                "timebox": box, "seed": seed, "params": {"prefix": list(prefix), "selftest": selftest, "fix_strategy": strat}}
+    def add(fam, prefix, box, strat=None, cube_k=0, nbits=0, free=False):
+        base = {"prop": PROP, "family": fam, "label": f"{fam}/{'+'.join(prefix) or 'fresh'}/{'all' if strat else 'internal' if strat is not None else 'both'}" + ("/free-inputs" if free else ""),
+                "timebox": box, "seed": seed, "params": {"prefix": list(prefix), "selftest": selftest, "fix_strategy": strat, "free_inputs": free}}
         if cube_k:
             for cube in common.cubes(nbits, cube_k):
                 T.append(dict(base, cube=cube))
@@ -37,6 +37,8 @@ def tasks(tier, seed, selftest=False):
             add("D3", p, (25 if q else 1200), strat)
     for strat in (0, 1):
         add("P:SW2+SW2", (), 30 if q else 900, strat)
+    for strat in (0, 1):
+        add("S1C2", (), 15 if q else 600, strat, free=True)      # the source presented as a free input (no update function)
     if q:
         for strat in (0, 1):
             add("S1C2", (), 20, strat)
